@@ -222,8 +222,11 @@ CLAIMED = {
                 "after a fan; C13c: exact triangle structure after ear clipping under EarsNotLast (decidable; holds on simple polygons by "
                 "the two-ears theorem), C13_fan_test_iff; C13d: for both fan kernels the triangles of the RESULT map carry the coordinates of "
                 "the vertex-list triangles, hence area conservation, orientation and untouched coordinates in the map (fresh spare darts). "
-                "NOT proved: ear clipping succeeds on every simple polygon in general position (two-ears theorem), the coordinate tie for "
-                "ear clipping, spare darts that already carry links or values — evaluated by the oracle.",
+                "C13e: the same coordinate tie for ear clipping (C13_earclip_triangles_carry_list_coordinates, area conserved and "
+                "every clipped ear correctly oriented IN THE RESULT MAP, old vertices keep their coordinates) and the clockwise twin of "
+                "the convex acceptance. Streams also translate the polygons by 2^47 / 2^50 (differences and their products still exact). "
+                "NOT proved: ear clipping succeeds on every simple polygon in general position (two-ears theorem), the sign of the LAST "
+                "ear-clip triangle (the code never tests it), spare darts that already carry links or values — evaluated by the oracle.",
         "design_ref": "DESIGN.md §7 C13",
     },
     "C14": {
@@ -235,8 +238,9 @@ CLAIMED = {
                 "real kernels vs the model; oracle: chain of k+1 segments on both sides, positions, frame incl. all images of dart 0. Props/C14c.lean: every old dart keeps its vertex orbit, vertex id and coordinates (in every storage), in particular the two end points.",
         "note": "Trusted: Lean kernel + 3 standard axioms; hand-written kernel model. Props/C14b.lean: exact b chain after insertion on both "
                 "sides, b2 pairing in reverse order, frame for every other image, new darts in pairwise distinct vertices; Props/C14c.lean: "
-                "every old dart keeps its vertex orbit, id and coordinates (in particular the two end points). NOT proved: UndefinedEdge "
-                "as an exact iff.",
+                "every old dart keeps its vertex orbit, id and coordinates (in particular the two end points). Props/C14d.lean: the answer is "
+                "UndefinedEdge exactly when an end point of the edge has no value, and then the map is unchanged "
+                "(C14_undefined_edge_iff, _single). NOT proved: insert_vertex_on_edge on a dart with no second end point (oracle only).",
         "design_ref": "DESIGN.md §7 C14",
     },
     "C11": {
@@ -293,10 +297,13 @@ CLAIMED = {
                 "origin-shift loop terminates and leaves no vertex on a grid corner; edge data and edge insertion with Left/Right tags, "
                 "WF preserved; the hypotheses of the clip theorems are ESTABLISHED for pipeline outputs, C16_pipeline_clip_WF) and TIED step "
                 "by step through the cfg(honeycomb_verif) wrappers grisubal::verif::{intersection_data, intersection_darts, segments, "
-                "edge_data, insert_edges, clip_left, clip_right} (identical text on the exact family). NOT proved: one theorem chaining "
-                "steps 1-5 ('every crossing and retained PoI is a vertex' is the prose composition of six theorems), that each new edge "
-                "stays in one cell across segment joints, that step 5 never fails, f64 rounding, the end-to-end geometric clauses (areas, "
-                "tiling, coverage: exact oracle on the implementation). Known findings D16a (a boundary loop inside one cell is dropped) "
+                "edge_data, insert_edges, clip_left, clip_right} (identical text on the exact family). Props/C16Chain.lean chains steps 1-5: for every "
+                "grid and geometry in general position, if the run succeeds every crossing of a segment with a grid line "
+                "(C16_crossings_are_vertices) and every point of interest on a chain between two crossings (C16_poi_are_vertices) is a "
+                "vertex of the result at its coordinates, under four named hypotheses (SideCoords, KeysOK, EdgeDartsInUse, OnChain) that "
+                "the tie evaluates on every case. NOT proved: that step 5 never fails (success is a hypothesis), the four hypotheses "
+                "themselves, f64 rounding, the other end-to-end geometric clauses (areas, tiling, coverage, sides: exact oracle on the "
+                "implementation). Known findings D16a (a boundary loop inside one cell is dropped) "
                 "and D16b (negatively oriented face on a same-side dip); D16c repaired (2e893a8).",
         "design_ref": "DESIGN.md §7 C16",
     },
@@ -311,8 +318,9 @@ CLAIMED = {
                 "capture phase itself (points of interest anchored to nodes, curves/surfaces) is evaluated by the oracle on the real code. Props/C17Surf.lean: after Ok, faces reachable from each other without crossing a curve-anchored edge carry the same Surface id and two faces with the same id are linked by a chain of edges anchored to it (regions separated by curves get different ids).",
         "note": "Partial: classification (incl. surface ids per region, C17Surf), the origin-shift loop (C17_no_vertex_on_grid_line) and the "
                 "capture pipeline steps 1-5 (shared with C16, with the Node anchors written by the edge insertion) are modelled, proved "
-                "and tied through the hooks; the geometric part of capture (which points become nodes/curves) is evaluated by the "
-                "oracle only. Known finding D17a (loop inside one cell dropped, twin of D16a); D17b repaired (2e893a8).",
+                "and tied through the hooks; C17_poi_are_node_vertices (corollary of the C16 chain theorem): a point of interest on a chain between two "
+                "crossings is a vertex of the result anchored Node(j); the rest of the geometric part of capture (curves, surfaces end "
+                "to end) is evaluated by the oracle only. Known finding D17a (loop inside one cell dropped, twin of D16a); D17b repaired (2e893a8).",
         "design_ref": "DESIGN.md §7 C17",
     },
 }
